@@ -13,9 +13,16 @@ open NeoModel.Mpt (Node Path toNibbles fromNibbles lookup rootHash CollFree node
 
 /-- C03.P1: `getstate` at the root of any height returns exactly what contract storage held at that
 height under `id ‖ key` (present: the value; absent: the not-found error). -/
-theorem getstate_commits (bs : List (List Change)) (hok : ∀ b ∈ bs, DistinctKeys b) (id : Nat) (key : Bytes) :
-    getState (trieAt mptMap bs) id key = storageAt bs (makeStorageKey id key) :=
-  mpt_root_commits bs hok _
+theorem makeStorageKey_length (id : Nat) (key : Bytes) : (makeStorageKey id key).length = key.length + 4 := by
+  simp [makeStorageKey, Find.le32, Wire.leBytes]
+
+/-- the key domain: every key of up to limits.MaxStorageKeyLen = 64 bytes, the limit included. -/
+theorem getstate_commits (bs : List (List Change)) (hok : ∀ b ∈ bs, DistinctKeys b) (id : Nat) (key : Bytes)
+    (hlen : key.length ≤ 64) :
+    getState (trieAt mptMap bs) id key = storageAt bs (makeStorageKey id key) := by
+  unfold getState
+  rw [if_neg (by rw [makeStorageKey_length]; unfold maxKeyLength; omega)]
+  exact mpt_root_commits bs hok _
 
 /-- C03.P2 (a proof produced for a stored key verifies to the stored value): for every height and
 every key contract storage holds there, `getproof` succeeds and `verifyproof` of its answer against
@@ -24,14 +31,17 @@ the trie's own node encodings; `Bounded`: the key/value limits of Put, C10.bound
 theorem proof_roundtrip (H : Bytes → Bytes) (h32 : ∀ b, (H b).length = 32)
     (bs : List (List Change)) (hok : ∀ b ∈ bs, DistinctKeys b)
     (hcf : CollFree H (nodeEncs H (trieAt mptMap bs))) (hb : Bounded (trieAt mptMap bs))
-    (id : Nat) (key : Bytes) (v : Val) (hv : storageAt bs (makeStorageKey id key) = some v) :
+    (id : Nat) (key : Bytes) (hlen : key.length ≤ 64) (v : Val)
+    (hv : storageAt bs (makeStorageKey id key) = some v) :
     ∃ pk, getProof H (trieAt mptMap bs) id key = some pk ∧
       verifyProof H (rootHash H (trieAt mptMap bs)) pk = some v := by
   have hl : lookup (trieAt mptMap bs) (toNibbles (makeStorageKey id key)) = some v := by
     rw [mpt_root_commits bs hok]; exact hv
   obtain ⟨ps, hps, hver⟩ := NeoModel.C10.proof_complete H h32 _ hcf hb (makeStorageKey id key) v hl
   refine ⟨(makeStorageKey id key, ps), ?_, ?_⟩
-  · simp [getProof, hps]
+  · have : ¬ (makeStorageKey id key).length > maxKeyLength := by
+      rw [makeStorageKey_length]; unfold maxKeyLength; omega
+    simp [getProof, hps, this]
   · simp [verifyProof, hver]
 
 /-- C03.P3 (no proof verifies for an absent key or another value): whatever key and list of byte
@@ -188,7 +198,7 @@ theorem bounded_trieAt (bs : List (List Change)) (hok : ∀ b ∈ bs, DistinctKe
 key 0102 written in block 1 and deleted in block 2) -/
 open Find (exBs exOk) in
 example : getState (trieAt mptMap exBs) 5 [1,3] = some [] ∧ getState (trieAt mptMap exBs) 5 [1,2] = none := by
-  rw [getstate_commits exBs exOk, getstate_commits exBs exOk]; decide
+  rw [getstate_commits exBs exOk _ _ (by decide), getstate_commits exBs exOk _ _ (by decide)]; decide
 
 open Find (exBs) in
 example : findStatesFrom (trieAt mptMap exBs) 5 [1] none 1 =
@@ -208,6 +218,6 @@ example : ∃ pk, getProof Mpt.toyH (trieAt mptMap exBs) 5 [1] = some pk ∧
       simp only [Find.exBs, List.mem_cons, List.not_mem_nil, or_false] at hb
       rcases hb with rfl | rfl <;> simp only [List.mem_cons, List.not_mem_nil, or_false] at hc <;>
         rcases hc with rfl | rfl <;> simp [toNibbles, Mpt.maxPathLength, Mpt.maxValueLength]))
-    5 [1] [7] (by decide)
+    5 [1] (by decide) [7] (by decide)
 
 end NeoModel.StateCommit.Rpc
